@@ -123,10 +123,13 @@ CHECKS = {
         level="exploration",
         rule=("scenario = random database (8 types, sparse/dense indices incl. 65535, random static variations incl. packed formats) x tx buffer 249..2048 x 1-4 READs, each with 1-4 headers from "
               "{class 0, all objects of a group with default or specific variation, 8/16-bit ranges incl. overlapping and end-of-range}; per fragment: updates applied while it awaits its confirm, then right confirm / wrong+right / timeout+late confirm / reconnect close / reconnect pre-empt / new request; "
-              "the concatenated static objects are compared header by header with the mirror snapshot taken when the request was sent; the C03 driver is run as a second part for the event side of series gating. "
+              "the concatenated static objects are compared header by header with the mirror snapshot taken when the request was sent; the C03 driver is run as a second part for the event side of series gating; third part, real threads (the C02 workload: two user threads committing 1-4 point updates per transaction while the master polls over TCP): the static objects of every response series, whatever the number of fragments, must all be explained by ONE database state between two transactions (intervals of the ledger counter during which each point showed the reported value are intersected over the series; rule torn_snapshot). "
               "distinct = (fragments in series, how it ended, tx size, headers) tuples"),
-        runs=[dict(check="c11", scale=10, timeout_s=900), dict(check="c03", timeout_s=900, scale=4)],
-        required=["objects_checked", "complete_series_ok", "multi_fragment_series_ok", "partial_series_prefix_ok", "updates_between_fragments", "wrong_confirms", "series_ended_by_timeout", "series_ended_by_reconnect", "series_ended_by_new_request"],
+        runs=[dict(check="c11", scale=10, timeout_s=900), dict(check="c03", timeout_s=900, scale=4),
+              # real threads: the C02 workload with the one-instant rule (torn_snapshot) evaluated on every response series
+              dict(check="c02", scale=0.5, timeout_s=1500)],
+        required=["objects_checked", "complete_series_ok", "multi_fragment_series_ok", "partial_series_prefix_ok", "updates_between_fragments", "wrong_confirms", "series_ended_by_timeout", "series_ended_by_reconnect", "series_ended_by_new_request",
+                  "snapshot_fragments_consistent", "snapshot_later_fragments", "snapshot_instant_unique"],
         thorough_scale=25.0,
         abnormal_exit_is_violation=True,
         assumptions=HARNESS_TRUST,
